@@ -49,6 +49,9 @@ var c19Overrides = []c19Override{
 	{Name: "query-only", URI: func(s, o string) string { return "enode://" + s + "@198.51.100.15:30303?discport=0" }, Host: "198.51.100.15", Port: "30303"},
 	{Name: "unspecified-v4", URI: func(s, o string) string { return "enode://" + s + "@0.0.0.0:30303" }, Port: "30303", Exotic: true},
 	{Name: "http-scheme", URI: func(s, o string) string { return "http://198.51.100.16:8080/" }, Exotic: true},
+	{Name: "http-scheme-own-id", URI: func(s, o string) string { return "http://" + s + "@198.51.100.18:30303" }, Exotic: true},
+	{Name: "schemeless-own-id", URI: func(s, o string) string { return "//" + s + "@198.51.100.19:30303" }, Exotic: true},
+	{Name: "uppercase-scheme-own-id", URI: func(s, o string) string { return "ENODE://" + s + "@198.51.100.20:30303" }, Exotic: true},
 	{Name: "bare-id", URI: func(s, o string) string { return s }, Exotic: true},
 	{Name: "garbage", URI: func(s, o string) string { return "::::not a uri::::" }, Exotic: true},
 	{Name: "percent", URI: func(s, o string) string { return "enode://" + s + "@%zz:1" }, Exotic: true},
